@@ -98,3 +98,10 @@ package bgv
 //@   nilable
 //@   requires len(op0.Value) >= 1 && len(op0.Value) <= 3
 //@   ensures implies(isnil(err), len(opOut.Value) == len(op0.Value))
+
+//@ afunc Evaluator.Sub#scalar
+//@   property C09
+//@   dyn op1 *big.Int
+//@   nilable
+//@   requires len(op0.Value) >= 1 && len(op0.Value) <= 3
+//@   ensures implies(isnil(err), len(opOut.Value) == len(op0.Value))
